@@ -197,7 +197,16 @@ pub open spec fn field_ok(c: Context, f: Field, out: Field) -> bool {
     (decision(c, f.key()) is Skip ==> out == f) && (!(decision(c, f.key()) is Skip) ==> field_post(f, out))
 }
 """, module="formatters::table"),
-        Fn(TB, "should_expand", mode="stub"),
+        Fn(TB, "expression_is_multiline_function", mode="stub"),
+        Fn(TB, "should_expand", contract="""
+    // total (C07): the `unknown node` arm is an obligation over every kind of table field the feature set knows; the loop ends with the fields
+""", edits=[
+            Between("let (start_brace, end_brace) = table_constructor.braces().tokens();", "|| trivia_util::table_fields_contains_comments(table_constructor);", "let contains_comments = hole_bool();", why="iterator chains over the trivia of the braces and the fields: are there comments (layout decision only)"),
+            Hole("for field in table_constructor.fields() {", "let mut vx_it = peekable(table_constructor.fields().pairs());\n        while let Some(vx_pair) = vx_it.next() {\n            let field = vx_pair.value();", kind="desugar", why="for over `&Punctuated` (its values in order): written as the loop over its pairs, through the Peekable wrapper"),
+            Loop("while let Some(vx_pair) = vx_it.next()", """
+            decreases pk_rest(&vx_it).len(),
+"""),
+        ]),
         Fn(TB, "format_table_constructor", contract="""
     requires
         forall|i: int| 0 <= i < ppairs(tc_fields(*table_constructor)).len() ==> field_wf(pair_value(#[trigger] ppairs(tc_fields(*table_constructor))[i])),
